@@ -11,6 +11,9 @@
 (*         2: plain and indexed keys.                                      *)
 (*   ctor  no paragraph: new_empty_paragraph / from_dict / from_kvpairs    *)
 (*         build them, then the same calls.                                *)
+(* Every scenario also has the calls with a FAULTING caller-supplied       *)
+(* object (a list of comment lines whose iteration raises after 0..2       *)
+(* lines, ctor: a mapping whose items() raises): CallerError, no change.   *)
 (* Lines offered as field_comment (LinePool) cover every branch of the     *)
 (* normalisation rule; CLs are the lists built from them.                  *)
 (* EDGE lines carry the outcome the STATEMENT prescribes (res/to) and the  *)
@@ -122,8 +125,18 @@ ACtor == /\ Scn = "ctor"
 
 ASSUME Emit => PrintT(<<"START", ToJson(Start)>>)
 
+\* faulting caller-supplied objects (j = the number of items delivered before the fault)
+AFault == \/ \E p \in EditParas(fcw) : \E n \in Names : \E k \in 0..2 :
+                /\ Len(fcw.ps[p]) < 3 \/ Tgt(fcw.ps[p], Key(n, "C", NoIdx)) # 0
+                /\ LET o == FaultOut(fcw)
+                   IN Step(Call("fset", p, n, Key(n, "C", NoIdx), Mode("list", <<LPlain, LFull, LHash>>, 0), k, ""), o, o)
+          \/ /\ Scn = "ctor" /\ Len(fcw.ps) < 2
+             /\ \E k \in 0..1 : LET o == FaultOut(fcw)
+                                IN Step([Call("fdict", 0, 0, Key(0, "C", NoIdx), Mode("", <<>>, 0), k, "")
+                                            EXCEPT !.it = << [n |-> 2, s |-> "L", v |-> 7], [n |-> 1, s |-> "C", v |-> 8] >>], o, o)
+
 FcInit == fcw = Start /\ fcres = "ok" /\ fcn = 0 /\ fclast = NoCall
-FcNext == ASet \/ ACmt \/ ADel \/ AMove \/ ASort \/ ACtor
+FcNext == ASet \/ ACmt \/ ADel \/ AMove \/ ASort \/ ACtor \/ AFault
 FcSpec == FcInit /\ [][FcNext]_fcvars
 
 \* ---- the statement ------------------------------------------------------------------
